@@ -42,7 +42,7 @@ Definition genesis_chain (g : genesis) : chain :=
                pidx := map (fun p => (tokens_to_power (snd p), fst p)) vs;
                last_pow := ∅; last_total := 0;
                dels := list_to_map (map (fun p => (fst p, snd p * dec_one)) vs);
-               ubq := []; params := default_params g |};
+               ubq := ∅; params := default_params g |};
      sl := {| infos := ∅; bitmaps := ∅;
               slparams := {| slp_window := g_window g; slp_min_signed_pc := g_min_signed_pc g; slp_jail := g_jail_secs g;
                              slp_slash_down_bp := g_slash_down_bp g; slp_slash_dbl_bp := g_slash_dbl_bp g |} |};
